@@ -159,7 +159,8 @@ class Agent(metaclass=ABCMeta):
                 if itr_event in relevant_events:
                     continue
                 relevant_events.append(itr_event)
-            elif self._time < itr_event.time or fpe_equals(itr_event.time, self._time):
+            elif self._time < itr_event.time and not fpe_equals(itr_event.time, self._time):
+                # An event at the current time was already applied at the end of the propagation that led here
                 relevant_events.append(itr_event)
         self.propagate_event_queue = relevant_events
 
